@@ -1,13 +1,20 @@
 package scratch
-import ("testing";"fmt";"pgregory.net/rapid")
+import ("testing";"context";"fmt"
+ "github.com/bufbuild/protocompile"
+ "pgregory.net/rapid"
+ "verif/harness/gen")
 func TestS(t *testing.T){
- a,b,c,d,n:=0,0,0,0,0
+ fails:=map[string]int{}
+ n:=0
  rapid.Check(t, func(rt *rapid.T){
+  ws:=gen.GenWorkspace(rt, gen.Config{CustomOpts:true, MaxFiles:2})
+  files:=ws.PrintAll()
+  c:=protocompile.Compiler{Resolver: protocompile.WithStandardImports(&protocompile.SourceResolver{Accessor: protocompile.SourceAccessorFromMap(files)})}
+  _,err:=c.Compile(context.Background(), ws.Names()...)
   n++
-  if rapid.IntRange(0,99).Draw(rt,"x")<15 {a++}
-  if rapid.Uint64().Draw(rt,"u")%100<15 {b++}
-  if rapid.SampledFrom([]int{0,1,2,3,4,5,6,7,8,9,10,11,12,13,14,15,16,17,18,19}).Draw(rt,"s")<3 {c++}
-  if rapid.Float64Range(0,1).Draw(rt,"f")<0.15 {d++}
+  if err!=nil { k:=err.Error(); if i:=len(k); i>0 {}; fails[k]++; if len(fails)<=3 && fails[k]==1 { for k,v:=range files { if k!="o/opts.proto" {fmt.Printf("--- %s\n%s\n",k,v)}}; fmt.Println("ERR:",err) } }
  })
- fmt.Println(n,a,b,c,d)
+ fmt.Println("cases",n,"distinct failures",len(fails))
+ i:=0
+ for k,v:=range fails { fmt.Println(v,k); i++; if i>25 {break} }
 }
